@@ -42,7 +42,8 @@ class C01(PtgCheck):
                  "observation-differential runs of generated JDF programs through parsec-ptgpp and the real runtime")
     rule = ("programs drawn from DAG templates (chain, bcast_gather, diamond, split_merge, branch, pipeline2d, fan, tri, mixed) with random "
             "sizes, negative/expression lower bounds, steps, derived locals, ternary/range dependencies, NEW/NULL, priorities, "
-            "count_deps; each run under 2-3 configurations scheduler:threads[:startup_iter:startup_chunk]. "
+            "count_deps; each run under 2-3 configurations scheduler:threads[:startup_iter:startup_chunk]; startup-only programs with chunked startup; "
+            "gather2: 1000-1500 successors with exactly two counter-tracked inputs from concurrent startup producers, 4-16 threads, 5 repetitions. "
             "non-trivial = at least 2 instances and 1 dependency edge; distinct = program text")
     trusted = ("tools/jdfgen.py (JDF and model printers of one structure), harness/ptg_driver.c + ptg_rt.h (body log), "
                "OpenMPI singleton init (MPI_Init_thread precedes parsec_init)",)
@@ -53,8 +54,23 @@ class C01(PtgCheck):
 
     def cases(self):
         if self.tier == "quick":
-            return self.program_cases(22, 2) + self.program_cases(3, 3) + self.startup_cases(3)
-        return self.program_cases(200, 4) + self.startup_cases(40)
+            return self.program_cases(22, 2) + self.program_cases(3, 3) + self.startup_cases(3) + self.gather_cases(3)
+        return self.program_cases(200, 4) + self.startup_cases(40) + self.gather_cases(24)
+
+    def gather_cases(self, n):
+        """hundreds of successors with exactly two counter-tracked inputs whose producers are startup tasks,
+        many threads, five repetitions in one context: concurrent releases into parsec_update_deps_with_counter
+        (a lost successor shows up as a hang under the watchdog, a doubled one as 'ran 2 times')"""
+        r = self.rng
+        out = []
+        variants = ["ctl", "ctl", "data2", "ctl", "ctl", "mixed"]
+        for i in range(n):
+            v = variants[i % len(variants)]
+            # the control gather evaluates ctl_gather_nb between the read of the counter and the CAS: widest window
+            p = jdfgen.gen_program(r, "gather2", max_inst=9000, gather_variant=v, gather_n=r.range(1000, 1500))
+            cfgs = ["%s:%d:-:-:0:5" % (r.pick(ptg_scheds()), th) for th in r.shuffle([4, 8, 16])[:2]]
+            out.append("inst %s | %s" % (" ".join(cfgs), jdfgen.to_case(p)))
+        return out
 
     def startup_cases(self, n):
         """programs of independent tasks with 1-4 parameters (every instance is a startup task),
